@@ -139,3 +139,79 @@ def run_create_guard(tier, log, seed):
     else:
         inconcl.append(f"create_account_checkpoint: {detail}")
     return finish()
+
+
+# ====================================================================================================================================
+# C08 / C06: JournaledState::transfer is sequentially consistent - the recipient's balance is read after the sender's was written, so that
+# a transfer from an account to itself neither mints nor burns
+def run_transfer_order(tier, log, seed):
+    text = mir.dump("revm", log)
+    funcs = mir.parse_functions(text)
+    duo = smt.Duo(timeout_s=30)
+    failures, inconcl, samples = [], [], []
+    ACC, BAL, STAMP = 500000, 1, 1000000
+    res = dict(engine="mir provenance-flow -> smtlib (z3 4.8.12 + cvc5 1.0)",
+               detail="balance reads carry the number of balance stores that preceded them: the debit is computed from the sender's balance read before any store, the credit from the "
+                      "recipient's balance read after the debit was stored; both use the same amount; success journals BalanceTransfer{from, to, amount}")
+
+    def finish():
+        res.update(queries=duo.queries, solver_s=duo.time, bounds="; ".join(samples))
+        duo.close()
+        if any(f.get("reproduced") for f in failures):
+            res.update(status="fail", failures=failures, reason=failures[0]["description"][:300])
+        elif inconcl or failures:
+            res.update(status="inconclusive", reason="; ".join(inconcl + [f["description"] for f in failures])[:600])
+        else:
+            res.update(status="pass")
+        return res
+
+    def replay():
+        st, out = native.call("debug", "transfer_sum", "SelfTransfer", log=log)
+        if st != "ok":
+            return None, f"native scenario failed: {st} {out[:200]}"
+        m = re.search(r"from_before=(\d+) from_after=(\d+)", out)
+        return (m is not None and m.group(1) != m.group(2)), out
+    cands = [f for n, fl in funcs.items() for f in fl if re.search(r"^journaled_state::<impl at [^>]*>::transfer$", n)]
+    if len(cands) != 1:
+        inconcl.append(f"transfer: {len(cands)} MIR bodies")
+        return finish()
+    fn = cands[0]
+    rules = [(r"^HashMap::<Address, Account>::get_mut::<Address>$", lambda c, a, env, b, fl: f"(+ {ACC} {fl.rvalue(mir.split_top(a)[1], env, b) or 0})"),
+             (r"^Option::<&mut \w+>::unwrap$", "arg:0"), (r" as Try>::branch$", "arg:0"), (r"from_residual$", "tag:14"),
+             (r"checked_sub$", "record:sub:2;count:subs;free"), (r"checked_add$", "record:add:2;count:adds;free"),
+             (r"^Vec::<JournalEntry>::push$", "count:pushes")]
+    consts = [(r"^&mut \(\(\(\*(_\d+)\)\.0: (\w+::)*AccountInfo\)\.0: ruint::Uint<256, 4>\)$", lambda m_, env: f"(+ {env.get(m_.group(1), 0)} {BAL})"),
+              # a read through a reference to a 256-bit word (a balance) is stamped with the number of balance stores so far; other dereferences are transparent
+              (r"^(?:no_retag )?copy \(\*(_\d+)\)$", lambda m_, env: (f"(+ {env.get(m_.group(1), 0)} (* {STAMP} {env.get('@bstores', 0)}))"
+                                                                    if "Uint<256, 4>" in (fn.locals.get(m_.group(1)) or "") else env.get(m_.group(1)))),
+              (r"^Option::<InstructionResult>::None$", 90), (r"^(?:\w+::)*InstructionResult::(\w+)$", lambda m_, env: str({"OutOfFunds": 73, "OverflowPayment": 72}.get(m_.group(1), 79)))]
+    fl = mirflow.Flow(fn, rules, consts, store_records=[(r"^\(\*(_\d+)\)$", "bstores")])
+    try:
+        decls, asserts, cells, order, returns, out = fl.encode()
+    except (mir.Unsupported, KeyError) as e:
+        inconcl.append(f"transfer: not encodable: {e}")
+        return finish()
+    FROM, TO = f"(+ (+ {ACC} arg_2) {BAL})", f"(+ (+ {ACC} arg_3) {BAL})"
+    per = []
+    for b in returns:
+        g = lambda c: out(c, b)
+        ok = (f"(and (= {g('@subs')} 1) (= {g('@sub.0')} {FROM}) (= {g('@sub.1')} arg_4) (= {g('@adds')} 1) (= {g('@add.0')} (+ {TO} {STAMP})) (= {g('@add.1')} arg_4) "
+              f"(= {g('@bstores')} 2) (= {g('@pushes')} 1))")
+        per.append(f"(and on_{b} (= {g('_0')} 90) (not {ok}))")
+    v, model, detail = duo.check(decls, asserts + ["(or " + " ".join(per) + ")"], want_model_of=[f"on_{b}" for b in order])
+    samples.append(f"transfer: {len(order)} blocks: a successful path on which the credit is not computed from the recipient's balance as it is after the debit was stored: {v}")
+    log(f"[c08] {samples[-1]}")
+    if v == "unsat":
+        wv, _, _ = duo.check(decls, asserts + ["(or " + " ".join(f"(and on_{b} (= {out('_0', b)} 90))" for b in returns) + ")"])
+        if wv != "sat":
+            inconcl.append(f"transfer: vacuity witness (a successful path) is {wv}")
+    elif v == "sat":
+        bad, outp = replay()
+        desc = "transfer: the recipient's balance is read before the sender's new balance is stored (or the two legs differ): a transfer from an account to itself changes its balance"
+        if bad is None:
+            inconcl.append(desc + f" ({outp})")
+        else:
+            failures.append(dict(id="transfer-order", reproduced=bool(bad), description=desc + f" | native: {outp[:200]}"))
+    else:
+        inconcl.append(f"transfer: {detail}")
+    return finish()
